@@ -2,6 +2,7 @@ package main
 
 import (
 	"fmt"
+	"go/ast"
 	"go/constant"
 	"go/token"
 	"go/types"
@@ -138,6 +139,7 @@ func (f *Frame) call(c *ssa.CallCommon, instr ssa.Value, st *State, reach string
 		args = append(args, f.val(a, st))
 	}
 	resT := instr.Type()
+	f.curArgs = c.Args
 	if fn := c.StaticCallee(); fn != nil {
 		switch fn.String() {
 		case "fmt.Sprintf":
@@ -372,6 +374,25 @@ func (f *Frame) callStatic(fn *ssa.Function, args []Val, resT types.Type, st *St
 		if !rec && f.depth < maxInlineDepth && loopsOK {
 			g.inlined[g.funcKey(fn)] = true
 			return f.inlineWith(fn, args, nil, st, reach, rname, ct)
+		}
+		// A helper without a contract that contains loops, called from a function whose contract has invariants for
+		// more loops than its body has: the loops were moved out into the helper (extract-function refactoring). The
+		// helper is inlined and its loops take the caller's unclaimed invariants, in order.
+		if !rec && f.depth < maxInlineDepth && ct == nil && f.spec != nil {
+			if adopt := f.adoptLoops(fn); adopt != nil {
+				// the caller's variables the helper receives as arguments keep their contract names inside it
+				adopt.argAlias = map[string]string{}
+				for i, a := range f.curArgs {
+					if i < len(fn.Params) {
+						if n := f.sourceName(a); n != "" && n != fn.Params[i].Name() {
+							adopt.argAlias[n] = fn.Params[i].Name()
+						}
+					}
+				}
+				g.inlined[g.funcKey(fn)] = true
+				g.note("loops of %s take the invariants of %s (the loop was moved into a helper)", relName(fn), relName(f.fn))
+				return f.inlineWith(fn, args, nil, st, reach, rname, adopt)
+			}
 		}
 	}
 	return f.unmodelled(fn.String(), args, resT, st, rname)
@@ -608,7 +629,24 @@ func (f *Frame) appendOp(args []Val, c *ssa.CallCommon, instr ssa.Value, st *Sta
 	g.assume(fmt.Sprintf("(>= %s %s)", newCap, newLen))
 	g.heapSet(st, h, fmt.Sprintf("(ite %s (store %s %s %s) (store %s %s %s))", fits, H, sl("arr", s), resArr, H, fresh, frArr))
 	res := fmt.Sprintf("(ite %s (mk_%s %s %s %s %s) (mk_%s %s 0 %s %s))", fits, srt, sl("arr", s), sl("off", s), newLen, sl("cap", s), srt, fresh, newLen, newCap)
-	return Val{Sort: srt, Term: g.def(f.name(instr), srt, res), GoT: instr.Type()}
+	rv := g.def(f.name(instr), srt, res)
+	// append(s, x, y...) with the elements given one by one (not a spread of another slice): the same facts through the
+	// slice accessor (consequences of the array equations above and of the accessor's defining axiom): the result
+	// holds the old elements followed by the new ones, and slices backed by other arrays read what they read before.
+	// Stated so that quantified facts about elements instantiate across the append. Not emitted for spreads
+	// (append(a, b...)): there the index shift between source and result feeds matching loops with sequence facts.
+	if nArgs := varargsLen(c); nArgs > 0 {
+		H2 := g.heapGet(st, h)
+		sg := "sget_" + srt
+		g.assume(fmt.Sprintf("(forall ((i!w Int)) (! (=> (and (<= 0 i!w) (< i!w %s)) (= (%s %s %s i!w) (%s %s %s i!w))) :pattern ((%s %s %s i!w))))",
+			sl("len", s), sg, H2, rv, sg, H, s.Term, sg, H2, rv))
+		for k := 0; k < nArgs; k++ {
+			g.assume(fmt.Sprintf("(= (%s %s %s (+ %s %d)) (%s %s %s %d))", sg, H2, rv, sl("len", s), k, sg, H, src.Term, k))
+		}
+		g.assume(fmt.Sprintf("(forall ((s!w %s) (i!w Int)) (! (=> (and (not (= (arr_%s s!w) %s)) (not (= (arr_%s s!w) %s))) (= (%s %s s!w i!w) (%s %s s!w i!w))) :pattern ((%s %s s!w i!w))))",
+			srt, srt, sl("arr", s), srt, fresh, sg, H2, sg, H, sg, H2))
+	}
+	return Val{Sort: srt, Term: rv, GoT: instr.Type()}
 }
 
 // ---------------------------------------------------------------------------
@@ -662,7 +700,52 @@ func (f *Frame) applyContract(ct *Contract, key string, names []string, sig *typ
 		}
 	}
 	bind(env)
+	// ghost variables of the callee: its postconditions hold for all their values. They are instantiated with the
+	// caller's ghost of the same name and sort when there is one, and universally quantified otherwise.
+	var qvars []string
+	ghostTerm := map[string]Val{}
+	quantified := map[string]bool{}
+	for _, v := range ct.Vars {
+		g.ensureSortNames(v.Sort)
+		inst := ""
+		if g.contract != nil {
+			for _, cv := range g.contract.Vars {
+				if cv.Name == v.Name && cv.Sort == v.Sort {
+					inst = "ghost_" + cv.Name
+				}
+			}
+		}
+		if inst != "" {
+			ghostTerm[v.Name] = Val{Sort: v.Sort, Term: inst}
+			continue
+		}
+		g.ctr++
+		qn := fmt.Sprintf("gq_%s_%d", mangle(v.Name), g.ctr)
+		ghostTerm[v.Name] = Val{Sort: v.Sort, Term: qn}
+		quantified[v.Name] = true
+		qvars = append(qvars, fmt.Sprintf("(%s %s)", qn, monoOptions(v.Sort)))
+	}
+	for n, v := range ghostTerm {
+		env.vars[n] = v
+	}
+	// a precondition (or a conjunct of one) that constrains a quantified ghost is not something the caller has to
+	// establish: it restricts the values of the ghost for which the postconditions are claimed
+	var ghostPremises []string
 	for _, r := range ct.Requires {
+		if len(quantified) > 0 && mentionsAny(r.Expr, quantified) {
+			var rest []ast.Expr
+			for _, c := range splitConj(r.Expr) {
+				if mentionsAny(c, quantified) {
+					ghostPremises = append(ghostPremises, env.trBool(c))
+				} else {
+					rest = append(rest, c)
+				}
+			}
+			for k, c := range rest {
+				g.oblige("callpre", fmt.Sprintf("%s:%s~part%d", shortKey(key), r.Label, k), f.props(), f.fn, reach, env.trBool(c), r.Src, pos)
+			}
+			continue
+		}
 		t := env.trBool(r.Expr)
 		kind := "callpre"
 		if r.Panics {
@@ -698,31 +781,15 @@ func (f *Frame) applyContract(ct *Contract, key string, names []string, sig *typ
 	post := g.newEnv(st, pre)
 	bind(post)
 	bindResults(post, sig, res)
-	// ghost variables of the callee: its postconditions hold for all their values. They are instantiated with the
-	// caller's ghost of the same name and sort when there is one, and universally quantified otherwise.
-	var qvars []string
-	for _, v := range ct.Vars {
-		g.ensureSortNames(v.Sort)
-		inst := ""
-		if g.contract != nil {
-			for _, cv := range g.contract.Vars {
-				if cv.Name == v.Name && cv.Sort == v.Sort {
-					inst = "ghost_" + cv.Name
-				}
-			}
-		}
-		if inst != "" {
-			post.vars[v.Name] = Val{Sort: v.Sort, Term: inst}
-			continue
-		}
-		g.ctr++
-		qn := fmt.Sprintf("gq_%s_%d", mangle(v.Name), g.ctr)
-		post.vars[v.Name] = Val{Sort: v.Sort, Term: qn}
-		qvars = append(qvars, fmt.Sprintf("(%s %s)", qn, monoOptions(v.Sort)))
+	for n, v := range ghostTerm {
+		post.vars[n] = v
 	}
 	for _, e := range ct.Ensures {
 		t := post.trBool(e.Expr)
 		if len(qvars) > 0 {
+			if len(ghostPremises) > 0 && mentionsAny(e.Expr, quantified) {
+				t = implies(and(ghostPremises...), t)
+			}
 			t = fmt.Sprintf("(forall (%s) %s)", strings.Join(qvars, " "), t)
 		}
 		g.assume(implies(reach, t))
@@ -1270,4 +1337,106 @@ func (g *Gen) declareCodec(srt string) {
 	g.preTheory = append(g.preTheory, fmt.Sprintf("(declare-fun %s (%s) Str)", m, srt), fmt.Sprintf("(declare-fun un%s (Str) %s)", m, srt))
 	g.emit(fmt.Sprintf("(assert (forall ((x %s)) (! (and (= (un%s (%s x)) x) (not (= (%s x) Bytes_nil))) :pattern ((%s x)))))", srt, m, m, m, m))
 	g.assumes["A-CODEC: protobuf Marshal is injective per message type and Unmarshal inverts it (uninterpreted encoding)"] = true
+}
+
+// splitConj: the top-level conjuncts of a spec expression
+func splitConj(e ast.Expr) []ast.Expr {
+	if p, ok := e.(*ast.ParenExpr); ok {
+		return splitConj(p.X)
+	}
+	if b, ok := e.(*ast.BinaryExpr); ok && b.Op == token.LAND {
+		return append(splitConj(b.X), splitConj(b.Y)...)
+	}
+	return []ast.Expr{e}
+}
+
+// mentionsAny: does the expression mention one of the names as a free identifier?
+func mentionsAny(e ast.Expr, names map[string]bool) bool {
+	found := false
+	ast.Inspect(e, func(n ast.Node) bool {
+		if id, ok := n.(*ast.Ident); ok && names[id.Name] {
+			found = true
+		}
+		return !found
+	})
+	return found
+}
+
+// adoptLoops: a contract for an uncontracted helper made of the caller's loop clauses that no loop of the caller's own
+// body claims (nil if the counts do not fit).
+func (f *Frame) adoptLoops(fn *ssa.Function) *Contract {
+	n := 0
+	for _, b := range fn.Blocks {
+		for _, p := range b.Preds {
+			if isBackEdge(p, b) {
+				n++
+				break
+			}
+		}
+	}
+	if n == 0 || f.spec == nil {
+		return nil
+	}
+	var ords []int
+	for o := range f.spec.Loops {
+		if o >= len(f.loopOrd)+f.adoptedLoops {
+			ords = append(ords, o)
+		}
+	}
+	sort.Ints(ords)
+	if len(ords) < n {
+		return nil
+	}
+	c := *f.spec
+	c.Loops = map[int]*LoopSpec{}
+	for i := 0; i < n; i++ {
+		c.Loops[i] = f.spec.Loops[ords[i]]
+	}
+	c.adopted = true
+	f.adoptedLoops += n
+	return &c
+}
+
+// sourceName: the source-level variable an SSA value is the current value of ("" if none)
+func (f *Frame) sourceName(v ssa.Value) string {
+	if u, ok := v.(*ssa.UnOp); ok && u.Op == token.MUL {
+		switch x := u.X.(type) {
+		case *ssa.Alloc:
+			return x.Comment
+		case *ssa.FreeVar:
+			return x.Name()
+		}
+	}
+	if p, ok := v.(*ssa.Parameter); ok {
+		return p.Name()
+	}
+	for _, b := range f.fn.Blocks {
+		for _, ins := range b.Instrs {
+			if dr, ok := ins.(*ssa.DebugRef); ok && !dr.IsAddr && dr.X == v {
+				if id, ok := dr.Expr.(*ast.Ident); ok {
+					return id.Name
+				}
+			}
+		}
+	}
+	return ""
+}
+
+// varargsLen: for append(s, x1, ..., xn) written with individual elements, n; 0 for a spread or an unknown shape
+func varargsLen(c *ssa.CallCommon) int {
+	if len(c.Args) != 2 {
+		return 0
+	}
+	sl, ok := c.Args[1].(*ssa.Slice)
+	if !ok || sl.Low != nil || sl.High != nil {
+		return 0
+	}
+	al, ok := sl.X.(*ssa.Alloc)
+	if !ok || al.Comment != "varargs" {
+		return 0
+	}
+	if at, ok := al.Type().(*types.Pointer).Elem().Underlying().(*types.Array); ok {
+		return int(at.Len())
+	}
+	return 0
 }
